@@ -169,7 +169,14 @@ def beartype_type(
                 # class attribute of the currently decorated class whose value
                 # is that class (rather than as a nested class of the currently
                 # decorated class)...
-                not attr_value.__qualname__.startswith(cls.__qualname__)
+                #
+                # Note that the trailing "." delimiter is required. The
+                # qualified name of an external class whose name is merely
+                # prefixed by the name of the currently decorated class (e.g.,
+                # "AB" for the currently decorated class "A") would otherwise
+                # be erroneously detected as that of a nested class.
+                not attr_value.__qualname__.startswith(
+                    f'{cls.__qualname__}.')
             )
         ):
             # print(f'Decorating {repr(cls)} attribute "{attr_name}"...')
